@@ -26,7 +26,7 @@ RULE = (
     "options); non-trivial = the search returned >=1 index"
 )
 ASSUMPTIONS = ["the independent cost model is the definition of the sliced tree's figures"]
-REQUIRED_MONITORS = ["prediction_vs_sliced_tree", "prediction_vs_model", "cached_sets_vs_model", "target_honoured", "forbidden_respected", "tree_slice_postcondition", "tree_reslice_postcondition", "presliced_trees", "best_k_lists", "best_k_vs_model"]
+REQUIRED_MONITORS = ["prediction_vs_sliced_tree", "prediction_vs_model", "cached_sets_vs_model", "target_honoured", "forbidden_respected", "tree_slice_postcondition", "tree_reslice_postcondition", "presliced_trees", "best_k_lists", "best_k_vs_model", "per_call_targets"]
 SHARD_TIMEOUT = {"quick": 400, "thorough": 3600}
 MINIMIZE = ("flops", "size", "write", "combo", "limit")
 
@@ -166,8 +166,22 @@ def execute(rep, case):
         temperature=o["temperature"], minimize=o["minimize"], allow_outer=o["allow_outer"], seed=o["seed"],
     )
     try:
-        sf = SliceFinder(tree, **kw)
-        ix_sl, cost = sf.search(o["max_repeats"])
+        if o.get("per_call"):
+            # the documented override: targets (and the temperature) given to search() itself; the constructor
+            # holds only a weak decoy target (at least 1 new slice), which every slicing meets
+            rep.mon("per_call_targets")
+            ctor = dict(kw, target_size=None, target_overhead=None, target_slices=1, temperature=0.5)
+            sf = SliceFinder(tree, **ctor)
+            res = sf.search(
+                o["max_repeats"], temperature=o["temperature"],
+                **{t: o[t] for t in ("target_size", "target_overhead", "target_slices") if o.get(t) is not None},
+            )
+            if not (isinstance(res, tuple) and len(res) == 2 and not isinstance(res[0], tuple)):
+                return ("per_call", f"search(<per-call targets>) returned {type(res).__name__} {str(res)[:120]} instead of (indices, costs)"), True
+            ix_sl, cost = res
+        else:
+            sf = SliceFinder(tree, **kw)
+            ix_sl, cost = sf.search(o["max_repeats"])
     except (RuntimeError, ValueError, KeyError) as e:
         rep.count("outcome", f"refused:{type(e).__name__}:{str(e)[:40]}")
         return None, False
@@ -220,7 +234,9 @@ def execute(rep, case):
 
     # best(k=...) and per-call target overrides: "whenever the slice search returns a set of indices"
     # also covers the ranked list a caller asks for after the search
-    res = check_best_k(rep, net, tree, sf, o, base_flops, base_mult, rng_for(case["case_seed"], "best_k"))
+    # best() falls back on the CONSTRUCTOR's targets
+    o_ctor = dict(o, target_size=None, target_overhead=None, target_slices=1) if o.get("per_call") else o
+    res = check_best_k(rep, net, tree, sf, o_ctor, base_flops, base_mult, rng_for(case["case_seed"], "best_k"))
     if res:
         return res, True
 
@@ -272,6 +288,7 @@ def gen_case(rng, cs, tier):
         "allow_outer": rng.choice([True, True, False, "only"]),
         "seed": rng.randrange(10**6),
         "max_repeats": rng.choice([1, 4, 16]),
+        "per_call": rng.random() < 0.3,
     }
     kind = rng.choice(["size", "slices", "overhead", "size+overhead"])
     if "size" in kind:
